@@ -1,6 +1,7 @@
 import QeepProps.C04
 import QeepProps.C06
 import QeepProps.C09
+import QeepProps.C03x
 import QeepProofs.ValueOps
 import QeepProofs.Real
 /-!
@@ -196,6 +197,1029 @@ example : vTranspose (⟨[2, 2, 3], [1, 2, 3, 4, 5, 6, 7, 8, 9, 10, 11, 12]⟩ :
       = .ok ⟨[2, 2, 3], [1, 2, 3, 4, 5, 6, 7, 8, 9, 10, 11, 12]⟩ := by decide
 
 end
+
+/-! ## 2. Patch / Slice round trips -/
+
+theorem validRange_cases {a b : Int} {d : Nat} (h : validRange (a, b) d = true) :
+    (a = 0 ∧ b = 0) ∨ (0 ≤ a ∧ a < b ∧ b ≤ (d : Int)) := by
+  unfold validRange at h
+  by_cases h0 : a = 0 ∧ b = 0
+  · exact Or.inl h0
+  · right
+    have hne : ¬ ((a == 0 && b == 0) = true) := by simpa using h0
+    simp only [hne, if_false] at h
+    by_cases hge : a ≥ b
+    · simp [hge] at h
+    · simp only [hge, if_false] at h
+      have hr' : (decide (a < 0) || decide (a ≥ (d : Int)) || decide (b < 1) || decide (b ≥ (d : Int) + 1)) = false := by
+        cases hb : (decide (a < 0) || decide (a ≥ (d : Int)) || decide (b < 1) || decide (b ≥ (d : Int) + 1)) with
+        | false => rfl
+        | true => rw [hb] at h; simp at h
+      simp only [Bool.or_eq_false_iff, decide_eq_false_iff_not] at hr'
+      omega
+
+/-- a non-empty range `[a, b)` inside a dimension of size `d` is accepted -/
+theorem validRange_of {a b : Int} {d : Nat} (h0 : 0 ≤ a) (h1 : a < b) (h2 : b ≤ (d : Int)) : validRange (a, b) d = true := by
+  have hne : ¬ (((a, b).1 == 0 && (a, b).2 == 0) = true) := by
+    simp only [Bool.and_eq_true, beq_iff_eq]; omega
+  have hge : ¬ ((a, b).1 ≥ (a, b).2) := by simp only []; omega
+  unfold validRange
+  rw [if_neg hne, if_neg hge]
+  have e1 : decide (a < 0) = false := by simp; omega
+  have e2 : decide (a ≥ (d : Int)) = false := by simp; omega
+  have e3 : decide (b < 1) = false := by simp; omega
+  have e4 : decide (b ≥ (d : Int) + 1) = false := by simp; omega
+  simp only [e1, e2, e3, e4]; rfl
+
+theorem validSliceIndex_cons_iff (r : IRange) (rest : List IRange) (d : Nat) (ds : List Nat) :
+    validSliceIndex (r :: rest) (d :: ds) = true ↔ (validRange r d = true ∧ validSliceIndex rest ds = true) := by
+  simp only [validSliceIndex, List.length_cons, List.zip_cons_cons, List.all_cons, Bool.and_eq_true,
+    decide_eq_true_eq]
+  constructor
+  · intro h; exact ⟨h.2.1, by omega, h.2.2⟩
+  · intro h; exact ⟨by have := h.2.1; omega, h.1, h.2.2⟩
+
+theorem validPatchIndex_nil_cons {s d : Nat} {ss ds : List Nat} (h : validPatchIndex [] (s :: ss) (d :: ds) = true) :
+    s ≤ d ∧ validPatchIndex [] ss ds = true := by
+  simp only [validPatchIndex, List.length_cons, List.zip_cons_cons, List.all_cons, Bool.and_eq_true,
+    decide_eq_true_eq, beq_iff_eq] at h ⊢
+  refine ⟨h.1.1.2.1, ⟨⟨by omega, h.1.1.2.2⟩, ?_⟩, ?_⟩ <;> simp [validSliceIndex]
+
+theorem validPatchIndex_cons {r : IRange} {rest : List IRange} {s d : Nat} {ss ds : List Nat}
+    (h : validPatchIndex (r :: rest) (s :: ss) (d :: ds) = true) :
+    s ≤ d ∧ validRange r d = true ∧ ((r.1 = 0 ∧ r.2 = 0) ∨ r.2 - r.1 = (s : Int)) ∧
+      validPatchIndex rest ss ds = true := by
+  simp only [validPatchIndex, List.length_cons, List.zip_cons_cons, List.all_cons, Bool.and_eq_true,
+    decide_eq_true_eq, beq_iff_eq, validSliceIndex, Bool.or_eq_true] at h ⊢
+  obtain ⟨⟨⟨hlen, hle, hles⟩, ⟨hlen2, hr, hrs⟩⟩, hc, hcs⟩ := h
+  exact ⟨hle, hr, hc, ⟨⟨by omega, hles⟩, ⟨by omega, hrs⟩⟩, hcs⟩
+
+/-- every range of the complete index covers exactly the source size -/
+inductive Covers : List (Nat × Nat) → List Nat → Prop
+  | nil : Covers [] []
+  | cons {f t W s ss} : t = f + s → Covers W ss → Covers ((f, t) :: W) (s :: ss)
+
+theorem covers_complete : ∀ {idx sds dds}, C06.PatchOK idx sds dds → Covers (completeIndex idx sds) sds
+  | _, _, _, .nil => by simp [completeIndex]; exact .nil
+  | _, _, _, .omit h hr => by
+    simp only [completeIndex]
+    exact .cons (by omega) (covers_complete hr)
+  | _, _, _, .cons (f := f) (t := t) (sd := sd) h hrange hr => by
+    simp only [completeIndex]
+    split
+    · exact .cons (by omega) (covers_complete hr)
+    · rename_i hne
+      rcases hrange with h0 | h1
+      · exact absurd h0 hne
+      · exact .cons (by omega) (covers_complete hr)
+
+theorem sliceDims_covers : ∀ {W pd}, Covers W pd → sliceDims W = pd
+  | _, _, .nil => rfl
+  | _, _, .cons h hc => by
+    have ih := sliceDims_covers hc
+    simp only [sliceDims] at ih
+    simp only [sliceDims, List.map_cons, ih]
+    congr 1; omega
+
+theorem completeIndex_covers : ∀ {W pd} (gd : List Nat), Covers W pd → (∀ s ∈ pd, 0 < s) → pd.length = gd.length →
+    completeIndex W gd = W
+  | _, _, [], .nil, _, _ => by simp [completeIndex]
+  | _, _, _ :: _, .nil, _, hl => by simp at hl
+  | _, _, [], .cons _ _, _, hl => by simp at hl
+  | _, _, d :: gd, .cons (f := f) (t := t) (s := s) h hc, hpos, hl => by
+    have hs : 0 < s := hpos s (by simp)
+    have ih := completeIndex_covers gd hc (fun x hx => hpos x (by simp [hx])) (by simpa using hl)
+    simp only [completeIndex]
+    rw [if_neg (by omega), ih]
+
+theorem inBlock_covers : ∀ {W pd js}, Covers W pd → Valid pd js → InBlock W js
+  | _, _, _, .nil, .nil => .nil
+  | _, _, _, .cons h hc, .cons hj hv => .cons (by omega) (inBlock_covers hc hv)
+
+/-- `patchedBlock(index, p)`: an index the validator accepts as a Slice index of the target, and (on natural numbers)
+    the complete index `Patch` itself used for the write -/
+theorem patchedBlock_spec : ∀ (index : List IRange) (pd gd : List Nat), validPatchIndex index pd gd = true →
+    (∀ s ∈ pd, 0 < s) →
+    validSliceIndex (patchedBlock index pd) gd = true ∧
+      natRanges (patchedBlock index pd) = completeIndex (natRanges index) pd
+  | index, [], gd, h, _ => by
+    have : gd = [] := by
+      cases gd with
+      | nil => rfl
+      | cons _ _ => simp [validPatchIndex] at h
+    subst this
+    cases index <;> simp [patchedBlock, validSliceIndex, natRanges, completeIndex]
+  | _, s :: ss, [], h, _ => by simp [validPatchIndex] at h
+  | [], s :: ss, d :: ds, h, hpos => by
+    obtain ⟨hle, hrest⟩ := validPatchIndex_nil_cons h
+    have hs : 0 < s := hpos s (by simp)
+    obtain ⟨ih1, ih2⟩ := patchedBlock_spec [] ss ds hrest (fun x hx => hpos x (by simp [hx]))
+    simp only [natRanges, List.map_nil] at ih2
+    refine ⟨?_, ?_⟩
+    · simp only [patchedBlock]
+      rw [validSliceIndex_cons_iff]
+      exact ⟨validRange_of (by omega) (by omega) (by omega), ih1⟩
+    · simp only [patchedBlock, natRanges, List.map_cons, List.map_nil, completeIndex, Int.toNat_zero, Int.toNat_natCast]
+      rw [ih2]
+  | r :: rest, s :: ss, d :: ds, h, hpos => by
+    obtain ⟨a, b⟩ := r
+    obtain ⟨hle, hr, hc, hrest⟩ := validPatchIndex_cons h
+    have hs : 0 < s := hpos s (by simp)
+    obtain ⟨ih1, ih2⟩ := patchedBlock_spec rest ss ds hrest (fun x hx => hpos x (by simp [hx]))
+    simp only [natRanges] at ih2
+    rcases validRange_cases hr with h0 | h1
+    · -- `{0,0}`: the block starts at offset 0 and has the source's size
+      obtain ⟨ha0, hb0⟩ := h0
+      rw [ha0, hb0]
+      refine ⟨?_, ?_⟩
+      · simp only [patchedBlock, beq_self_eq_true, Bool.and_self, if_true]
+        rw [validSliceIndex_cons_iff]
+        exact ⟨validRange_of (by omega) (by omega) (by omega), ih1⟩
+      · simp only [patchedBlock, beq_self_eq_true, Bool.and_self, if_true, natRanges, List.map_cons, completeIndex,
+          Int.toNat_zero, Int.toNat_natCast, and_self]
+        rw [ih2]
+    · have hne : ¬ ((a == 0 && b == 0) = true) := by
+        simp only [Bool.and_eq_true, beq_iff_eq]; omega
+      have hpb : patchedBlock ((a, b) :: rest) (s :: ss) = (a, b) :: patchedBlock rest ss := by
+        simp only [patchedBlock]; rw [if_neg hne]
+      rw [hpb]
+      refine ⟨?_, ?_⟩
+      · rw [validSliceIndex_cons_iff]
+        exact ⟨hr, ih1⟩
+      · simp only [natRanges, List.map_cons, completeIndex]
+        have hne' : ¬ (a.toNat = 0 ∧ b.toNat = 0) := by omega
+        rw [if_neg hne', ih2]
+
+/-- a source index, shifted to the write position, is a valid target index inside the written block, and shifting back
+    recovers it -/
+theorem shift_unshift : ∀ {W sds dds js}, FitsP W sds dds → Valid sds js →
+    Valid dds (shiftIdx W js) ∧ insideP W sds (shiftIdx W js) = true ∧ unshiftP W (shiftIdx W js) = js
+  | _, _, _, _, .nil, .nil => ⟨.nil, rfl, rfl⟩
+  | _, _, _, _, .cons (f := f) (sd := sd) hfit hrest, .cons (s := j) hj hv => by
+    obtain ⟨h1, h2, h3⟩ := shift_unshift hrest hv
+    refine ⟨?_, ?_, ?_⟩
+    · simp only [shiftIdx]; exact .cons (by omega) h1
+    · simp only [shiftIdx, insideP, h2, Bool.and_true, decide_eq_true_eq]; omega
+    · simp only [shiftIdx, unshiftP, h3]; congr 1; omega
+
+/-- `insideP` spelled out: every coordinate lies in `[From, From + size)` of its range -/
+theorem insideP_iff : ∀ {W sds dds js}, FitsP W sds dds → Valid dds js →
+    (insideP W sds js = true ↔ ∀ k, k < js.length → (W.getD k (0, 0)).1 ≤ js.getD k 0 ∧ js.getD k 0 < (W.getD k (0, 0)).1 + sds.getD k 0)
+  | _, _, _, _, .nil, .nil => by simp [insideP]
+  | _, _, _, _, .cons (f := f) (t := t) (idx := W) (sd := sd) (sds := sds) hfit hrest, .cons (s := j) (ss := js) hj hv => by
+    have ih := insideP_iff hrest hv
+    simp only [insideP, Bool.and_eq_true, decide_eq_true_eq, ih, List.length_cons]
+    constructor
+    · rintro ⟨h0, hr⟩ k hk
+      cases k with
+      | zero => simpa using h0
+      | succ k => simpa using hr k (by omega)
+    · intro h
+      refine ⟨by simpa using h 0 (by omega), ?_⟩
+      intro k hk
+      simpa using h (k + 1) (by omega)
+
+section
+variable [Scalar α]
+
+/-- what an accepted `Patch` returns: the target's dims, well formed, `C06.patch_get`'s element formula -/
+theorem vPatch_get (t p r : Tensor α) (ht : t.WF) (hp : p.WF) (index : List IRange) (h : vPatch t index p = .ok r) :
+    validPatchIndex index p.dims t.dims = true ∧ r.dims = t.dims ∧ r.WF ∧
+      ∀ js, Valid t.dims js →
+        r.at? js = if insideP (completeIndex (natRanges index) p.dims) p.dims js
+          then p.at? (unshiftP (completeIndex (natRanges index) p.dims) js) else t.at? js := by
+  have hv : validPatchIndex index p.dims t.dims = true := by
+    cases hb : validPatchIndex index p.dims t.dims with
+    | true => rfl
+    | false => rw [(C09.vPatch_total t p ht hp index).2 hb] at h; cases h
+  obtain ⟨data, e, hlen, hget⟩ := C06.patch_get t p ht hp (natRanges index) (C09.patchOK_of_valid index _ _ hv)
+  unfold vPatch at h
+  rw [if_pos hv, e] at h
+  simp only [Out.ofOpt, Out.ok.injEq] at h
+  subst h
+  exact ⟨hv, rfl, ⟨hlen, ht.2⟩, hget⟩
+
+/-- **Slicing the window that was patched returns the patch** — for every rank and every mix of explicit, omitted
+    and `{0,0}` ranges: if `Patch(t, index, p)` is accepted with result `r`, then `Slice(r, patchedBlock index p.dims)`
+    — the block `gradtrack.Patch` slices for the source operand: the given range where explicit, `[0, size of p)` where
+    omitted or `{0,0}` — is accepted and is exactly `p` (dims and data). -/
+theorem slice_of_patch (t p r : Tensor α) (ht : t.WF) (hp : p.WF) (index : List IRange)
+    (h : vPatch t index p = .ok r) : vSlice r (patchedBlock index p.dims) = .ok p := by
+  obtain ⟨hv, hd, wr, hget⟩ := vPatch_get t p r ht hp index h
+  have hpok := C09.patchOK_of_valid index _ _ hv
+  have hfit := C06.fitsP_complete hpok
+  have hcov := covers_complete hpok
+  have hlen : p.dims.length = r.dims.length := by rw [hd]; exact hfit.lengths
+  obtain ⟨hvs, hnat⟩ := patchedBlock_spec index p.dims t.dims hv hp.2
+  rw [← hd] at hvs
+  obtain ⟨data, e, hl, hsl⟩ := C06.slice_get r wr _ (C09.rangesOK_of_valid _ _ hvs)
+  rw [hnat, completeIndex_covers r.dims hcov hp.2 hlen, sliceDims_covers hcov] at e hl hsl
+  unfold vSlice
+  rw [if_pos hvs, hnat, e]
+  simp only [Out.ofOpt, Out.ok.injEq]
+  refine tensor_ext ⟨p.dims, data⟩ p ⟨hl, hp.2⟩ hp rfl (fun js hjs => ?_)
+  obtain ⟨h1, h2, h3⟩ := shift_unshift hfit hjs
+  rw [hsl js (inBlock_covers hcov hjs), hget _ h1, if_pos h2, h3]
+
+/-- **Patch outside the window leaves the target** — the result of an accepted `Patch` has the target's dims and, at
+    every valid index with some coordinate outside `[From, From + size of p)` of its range (`insideP … = false`, spelled
+    out by `insideP_iff`), holds the target's element. -/
+theorem patch_outside (t p r : Tensor α) (ht : t.WF) (hp : p.WF) (index : List IRange)
+    (h : vPatch t index p = .ok r) :
+    r.dims = t.dims ∧ r.WF ∧
+      ∀ js, Valid t.dims js → insideP (completeIndex (natRanges index) p.dims) p.dims js = false → r.at? js = t.at? js := by
+  obtain ⟨hv, hd, wr, hget⟩ := vPatch_get t p r ht hp index h
+  refine ⟨hd, wr, ?_⟩
+  intro js hjs hout
+  rw [hget js hjs, hout]; rfl
+
+/-- the same, with "outside" spelled out: some coordinate `k` of the index misses the written range along dimension `k` -/
+theorem patch_outside' (t p r : Tensor α) (ht : t.WF) (hp : p.WF) (index : List IRange)
+    (h : vPatch t index p = .ok r) (js : List Nat) (hjs : Valid t.dims js) (k : Nat) (hk : k < js.length)
+    (hout : js.getD k 0 < ((completeIndex (natRanges index) p.dims).getD k (0, 0)).1 ∨
+      ((completeIndex (natRanges index) p.dims).getD k (0, 0)).1 + p.dims.getD k 0 ≤ js.getD k 0) :
+    r.at? js = t.at? js := by
+  obtain ⟨hv, _, _, _⟩ := vPatch_get t p r ht hp index h
+  have hfit := C06.fitsP_complete (C09.patchOK_of_valid index _ _ hv)
+  apply (patch_outside t p r ht hp index h).2.2 js hjs
+  cases hb : insideP (completeIndex (natRanges index) p.dims) p.dims js with
+  | false => rfl
+  | true =>
+    have := (insideP_iff hfit hjs).mp hb k hk
+    omega
+
+/-- non-vacuity (kernel-checked on `Int`): a [2,2] patch into a [3,3] target with the partial index `{1:3}` (offset 0
+    along the omitted dimension); the block is `{1:3},{0:2}`, slicing it returns the patch -/
+example : vPatch (⟨[3, 3], [1, 2, 3, 4, 5, 6, 7, 8, 9]⟩ : Tensor Int) [(1, 3)] ⟨[2, 2], [10, 20, 30, 40]⟩
+      = .ok ⟨[3, 3], [1, 2, 3, 10, 20, 6, 30, 40, 9]⟩ ∧
+    patchedBlock [(1, 3)] [2, 2] = [(1, 3), (0, 2)] ∧
+    vSlice (⟨[3, 3], [1, 2, 3, 10, 20, 6, 30, 40, 9]⟩ : Tensor Int) (patchedBlock [(1, 3)] [2, 2])
+      = .ok ⟨[2, 2], [10, 20, 30, 40]⟩ := by decide
+
+end
+
+/-! ## 3. Concat / Slice round trip -/
+
+/-- the complete window of the k-th operand: `[base, base+len)` at `dim`, the whole dimension elsewhere -/
+def catWin : Nat → Nat → Nat → List Nat → List (Nat × Nat)
+  | _, _, _, [] => []
+  | 0, base, len, _ :: ds => (base, base + len) :: ds.map (fun d => (0, d))
+  | dim + 1, base, len, d :: ds => (0, d) :: catWin dim base len ds
+
+/-- add `b` to coordinate `k` -/
+def addAt : Nat → Nat → List Nat → List Nat
+  | _, _, [] => []
+  | 0, b, j :: js => (j + b) :: js
+  | k + 1, b, j :: js => j :: addAt k b js
+
+theorem completeIndex_zeros : ∀ (l : List IRange) (ds : List Nat), (∀ r ∈ l, r = ((0 : Int), (0 : Int))) →
+    completeIndex (natRanges l) ds = ds.map (fun d => (0, d))
+  | _, [], _ => by simp [completeIndex]
+  | [], d :: ds, _ => by
+    have ih := completeIndex_zeros [] ds (by simp)
+    simp only [natRanges, List.map_nil] at ih
+    simp [natRanges, completeIndex, ih]
+  | r :: l, d :: ds, h => by
+    have ih := completeIndex_zeros l ds (fun x hx => h x (by simp [hx]))
+    have hr : r = (0, 0) := h r (by simp)
+    simp only [natRanges] at ih
+    simp [natRanges, completeIndex, hr, ih]
+
+theorem range_map_succ {β : Type} (g : Nat → β) (n : Nat) :
+    (List.range (n + 1)).map g = g 0 :: (List.range n).map (fun i => g (i + 1)) := by
+  rw [List.range_succ_eq_map]
+  simp [List.map_map, Function.comp_def]
+
+theorem completeIndex_oneRange : ∀ (dim base len : Nat) (ds : List Nat) (g : Nat → IRange), 0 < len →
+    g dim = ((base : Int), ((base + len : Nat) : Int)) → (∀ i, i ≠ dim → g i = (0, 0)) →
+    completeIndex (natRanges ((List.range ds.length).map g)) ds = catWin dim base len ds
+  | _, _, _, [], _, _, _, _ => by simp [completeIndex, catWin]
+  | 0, base, len, d :: ds, g, hl, hg, hz => by
+    rw [List.length_cons, range_map_succ, hg]
+    have hrest := completeIndex_zeros ((List.range ds.length).map (fun i => g (i + 1))) ds (by
+      intro r hr
+      obtain ⟨i, _, rfl⟩ := List.mem_map.mp hr
+      exact hz (i + 1) (by omega))
+    simp only [natRanges, List.map_cons, completeIndex, catWin] at hrest ⊢
+    have hne : ¬ ((base : Int).toNat = 0 ∧ ((base + len : Nat) : Int).toNat = 0) := by omega
+    rw [if_neg hne, hrest]
+    simp only [Int.toNat_natCast]
+  | dim + 1, base, len, d :: ds, g, hl, hg, hz => by
+    rw [List.length_cons, range_map_succ, hz 0 (by omega)]
+    have ih := completeIndex_oneRange dim base len ds (fun i => g (i + 1)) hl hg
+      (fun i hi => hz (i + 1) (by omega))
+    simp only [natRanges, List.map_cons, completeIndex, catWin] at ih ⊢
+    rw [ih]
+    simp
+
+/-- the index the Concat constructor builds, completed against the result dims -/
+theorem completeIndex_concatIndex (dim base len : Nat) (ds : List Nat) (hl : 0 < len) :
+    completeIndex (natRanges (concatIndex ds.length dim base len)) ds = catWin dim base len ds := by
+  unfold concatIndex
+  exact completeIndex_oneRange dim base len ds _ hl (by simp) (fun i hi => by simp [hi])
+
+theorem validSliceIndex_concatIndex : ∀ (dim base len : Nat) (ds : List Nat), 0 < len → dim < ds.length →
+    base + len ≤ ds.getD dim 0 → validSliceIndex (concatIndex ds.length dim base len) ds = true := by
+  intro dim base len ds hl hdim hb
+  simp only [validSliceIndex, concatIndex, List.length_map, List.length_range, Nat.le_refl, decide_true, Bool.true_and,
+    List.all_eq_true]
+  intro p hp
+  obtain ⟨i, hi1, hi2⟩ := List.mem_iff_getElem.mp hp
+  have hi : i < ds.length := by
+    simp only [List.length_zip, List.length_map, List.length_range, Nat.min_self] at hi1; exact hi1
+  simp only [List.getElem_zip, List.getElem_map, List.getElem_range] at hi2
+  rw [← hi2]
+  by_cases hid : i = dim
+  · have hgd : ds.getD dim 0 = ds[i] := by
+      subst hid
+      simp [List.getD, List.getElem?_eq_getElem hi]
+    rw [hgd] at hb
+    simp only [hid, if_true]
+    subst hid
+    exact validRange_of (by omega) (by omega) (by omega)
+  · simp [hid, validRange]
+
+theorem sliceDims_catWin : ∀ (dim base len : Nat) (ds : List Nat), dim < ds.length →
+    sliceDims (catWin dim base len ds) = ds.set dim len
+  | _, _, _, [], h => by simp at h
+  | 0, base, len, d :: ds, _ => by
+    simp only [catWin, sliceDims, List.map_cons, List.map_map, List.set_cons_zero]
+    congr 1
+    · omega
+    · conv => rhs; rw [← List.map_id ds]
+      apply List.map_congr_left; intro x _; simp
+  | dim + 1, base, len, d :: ds, h => by
+    have ih := sliceDims_catWin dim base len ds (by simpa using h)
+    simp only [sliceDims] at ih
+    simp only [catWin, sliceDims, List.map_cons, List.set_cons_succ, ih]
+    simp
+
+theorem inBlock_whole : ∀ {ds js : List Nat}, Valid ds js → InBlock (ds.map (fun d => (0, d))) js
+  | _, _, .nil => .nil
+  | _, _, .cons h hv => by
+    simp only [List.map_cons]
+    exact .cons (by omega) (inBlock_whole hv)
+
+theorem shiftIdx_whole : ∀ {ds js : List Nat}, Valid ds js → shiftIdx (ds.map (fun d => (0, d))) js = js
+  | _, _, .nil => rfl
+  | _, _, .cons h hv => by simp [shiftIdx, shiftIdx_whole hv]
+
+theorem inBlock_catWin : ∀ (dim base len : Nat) {ds js : List Nat}, dim < ds.length → Valid (ds.set dim len) js →
+    InBlock (catWin dim base len ds) js ∧ shiftIdx (catWin dim base len ds) js = addAt dim base js
+  | _, _, _, [], _, h, _ => by simp at h
+  | 0, base, len, d :: ds, _, _, hv => by
+    simp only [List.set_cons_zero] at hv
+    cases hv with
+    | cons hj hv' =>
+      simp only [catWin, shiftIdx, addAt, shiftIdx_whole hv', and_true]
+      exact .cons (by omega) (inBlock_whole hv')
+  | dim + 1, base, len, d :: ds, _, h, hv => by
+    simp only [List.set_cons_succ] at hv
+    cases hv with
+    | cons hj hv' =>
+      obtain ⟨h1, h2⟩ := inBlock_catWin dim base len (by simpa using h) hv'
+      simp only [catWin, shiftIdx, addAt, h2, Nat.add_zero, and_true]
+      exact .cons (by omega) h1
+
+/-- an operand-local index, moved by `base` along `dim`, is a valid result index -/
+theorem valid_addAt : ∀ (dim base len : Nat) {ds js : List Nat}, dim < ds.length → Valid (ds.set dim len) js →
+    base + len ≤ ds.getD dim 0 → Valid ds (addAt dim base js) ∧ js.getD dim 0 < len ∧ dim < js.length
+  | _, _, _, [], _, h, _, _ => by simp at h
+  | 0, base, len, d :: ds, _, _, hv, hb => by
+    simp only [List.set_cons_zero] at hv
+    simp only [List.getD_cons_zero] at hb
+    cases hv with
+    | cons hj hv' =>
+      simp only [addAt, List.getD_cons_zero, List.length_cons]
+      exact ⟨.cons (by omega) hv', hj, by omega⟩
+  | dim + 1, base, len, d :: ds, _, h, hv, hb => by
+    simp only [List.set_cons_succ] at hv
+    simp only [List.getD_cons_succ] at hb
+    cases hv with
+    | cons hj hv' =>
+      obtain ⟨h1, h2, h3⟩ := valid_addAt dim base len (by simpa using h) hv' hb
+      simp only [addAt, List.getD_cons_succ, List.length_cons]
+      exact ⟨.cons hj h1, h2, by omega⟩
+
+theorem take_sum_le : ∀ (l : List Nat) (k : Nat), (l.take k).sum + l.getD k 0 ≤ l.sum
+  | [], k => by simp
+  | x :: l, 0 => by simp
+  | x :: l, k + 1 => by
+    have := take_sum_le l k
+    simp only [List.take_succ_cons, List.sum_cons, List.getD_cons_succ]
+    omega
+
+/-- position `x` of the k-th operand sits at `x + (sizes of the operands before it)` -/
+theorem locate_base : ∀ (lens : List Nat) (k x : Nat), x < lens.getD k 0 →
+    locate lens (x + (lens.take k).sum) = some (k, x)
+  | [], k, x, h => by simp at h
+  | l :: ls, 0, x, h => by
+    simp only [List.getD_cons_zero] at h
+    rw [List.take_zero, List.sum_nil, Nat.add_zero]
+    show (if x < l then some (0, x) else _) = _
+    rw [if_pos h]
+  | l :: ls, k + 1, x, h => by
+    simp only [List.getD_cons_succ] at h
+    have ih := locate_base ls k x h
+    have hs : ((l :: ls).take (k + 1)).sum = l + (ls.take k).sum := by
+      rw [List.take_succ_cons, List.sum_cons]
+    rw [hs]
+    show (if x + (l + (ls.take k).sum) < l then _
+      else (locate ls (x + (l + (ls.take k).sum) - l)).map (fun p => (p.1 + 1, p.2))) = _
+    rw [if_neg (by omega)]
+    have : x + (l + (ls.take k).sum) - l = x + (ls.take k).sum := by omega
+    rw [this, ih]
+    rfl
+
+theorem route_addAt (lens : List Nat) (k : Nat) : ∀ (d : Nat) (js : List Nat), d < js.length →
+    js.getD d 0 < lens.getD k 0 → route d lens (addAt d ((lens.take k).sum) js) = some (k, js)
+  | _, [], h, _ => by simp at h
+  | 0, j :: is, _, h => by
+    simp only [List.getD_cons_zero] at h
+    simp only [addAt, route, locate_base lens k j h, Option.map_some]
+  | d + 1, j :: is, hd, h => by
+    simp only [List.getD_cons_succ] at h
+    have ih := route_addAt lens k d is (by simpa using hd) h
+    simp only [addAt, route, ih, Option.map_some]
+
+/-- what `ValidateConcatTensorsDimsAlongDim` accepts: `0 ≤ dim < rank` and every operand agreeing with the first one on
+    the rank and on every dimension except `dim` -/
+theorem validConcat_shape (t0 : Tensor α) (rest : List (Tensor α)) (dim : Int)
+    (h : validConcat ((t0 :: rest).map (·.dims)) dim = true) :
+    0 ≤ dim ∧ dim.toNat < t0.dims.length ∧
+    ∀ t ∈ t0 :: rest, t.dims.length = t0.dims.length ∧ ∀ j, j ≠ dim.toNat → t.dims[j]? = t0.dims[j]? := by
+  simp only [validConcat, List.map_cons, List.all_eq_true] at h
+  have h0 := h t0.dims (by simp)
+  simp only [Bool.and_eq_true, decide_eq_true_eq, beq_iff_eq] at h0
+  have hd0 : 0 ≤ dim := h0.1.2.1
+  have hd1 : dim < (t0.dims.length : Int) := h0.1.2.2
+  refine ⟨hd0, by omega, ?_⟩
+  intro t ht
+  have hmem : t.dims ∈ t0.dims :: List.map (·.dims) rest := by
+    rcases List.mem_cons.mp ht with e | e
+    · rw [e]; simp
+    · exact List.mem_cons_of_mem _ (List.mem_map.mpr ⟨t, e, rfl⟩)
+  have ht' := h t.dims hmem
+  simp only [Bool.and_eq_true, decide_eq_true_eq, beq_iff_eq, List.all_eq_true, List.mem_range, Bool.or_eq_true] at ht'
+  obtain ⟨⟨⟨_, hlen⟩, _⟩, hall⟩ := ht'
+  refine ⟨hlen, ?_⟩
+  intro j hj
+  by_cases hjl : j < t.dims.length
+  · rcases hall j hjl with e | e
+    · exact absurd (by omega : j = dim.toNat) hj
+    · exact e
+  · rw [List.getElem?_eq_none (by omega), List.getElem?_eq_none (by omega)]
+
+section
+variable [Scalar α]
+
+/-- the round trip at the level of `concatRaw` (natural `dim`) -/
+theorem slice_of_concatRaw (t0 : Tensor α) (rest : List (Tensor α)) (d : Nat) (hdim : d < t0.dims.length)
+    (hwf : ∀ t ∈ t0 :: rest, t.WF)
+    (hagree : ∀ t ∈ t0 :: rest, t.dims.length = t0.dims.length ∧ ∀ j, j ≠ d → t.dims[j]? = t0.dims[j]?)
+    (r : Tensor α) (hr : concatRaw (t0 :: rest) d = some r) (k : Nat) (tk : Tensor α) (hk : (t0 :: rest)[k]? = some tk) :
+    r.WF ∧ vSlice r (concatIndex tk.dims.length d ((((t0 :: rest).take k).map (fun t => t.dims.getD d 0)).sum)
+      (tk.dims.getD d 0)) = .ok tk := by
+  obtain ⟨data, e, hlen, hroute⟩ := C06.concat_get t0 rest d hdim hwf hagree
+  generalize hlens : (t0 :: rest).map (fun t => t.dims.getD d 0) = lens at e hlen hroute
+  rw [e] at hr
+  simp only [Option.some.injEq] at hr
+  subst hr
+  -- the k-th operand
+  have hmem : tk ∈ t0 :: rest := List.mem_of_getElem? hk
+  have wk := hwf tk hmem
+  obtain ⟨hlk, hjk⟩ := hagree tk hmem
+  have hdk : d < tk.dims.length := by omega
+  have hpos0 : ∀ t ∈ t0 :: rest, 0 < t.dims.getD d 0 := by
+    intro t ht
+    have hl := (hagree t ht).1
+    have hdt : d < t.dims.length := by omega
+    rw [List.getD_eq_getElem?_getD, List.getElem?_eq_getElem hdt]
+    exact (hwf t ht).2 _ (List.getElem_mem hdt)
+  have hl : 0 < tk.dims.getD d 0 := hpos0 tk hmem
+  have hlensk : lens.getD k 0 = tk.dims.getD d 0 := by
+    rw [← hlens, List.getD_eq_getElem?_getD, List.getElem?_map, hk]; rfl
+  have hbase : (((t0 :: rest).take k).map (fun t => t.dims.getD d 0)).sum = (lens.take k).sum := by
+    rw [← hlens, List.map_take]
+  rw [hbase]
+  have hb : (lens.take k).sum + tk.dims.getD d 0 ≤ lens.sum := by
+    have := take_sum_le lens k
+    rw [hlensk] at this; exact this
+  have hS : (t0.dims.set d lens.sum).getD d 0 = lens.sum := by
+    rw [List.getD_eq_getElem?_getD, List.getElem?_set_self hdim]; rfl
+  have hdr : d < (t0.dims.set d lens.sum).length := by rw [List.length_set]; exact hdim
+  have hrank : tk.dims.length = (t0.dims.set d lens.sum).length := by rw [List.length_set]; exact hlk
+  -- the result is well formed
+  have wr : (⟨t0.dims.set d lens.sum, data⟩ : Tensor α).WF := by
+    refine ⟨hlen, ?_⟩
+    intro x hx
+    rcases List.mem_or_eq_of_mem_set hx with hx | hx
+    · exact (hwf t0 (by simp)).2 x hx
+    · have h0 := hpos0 t0 (by simp)
+      rw [hx, ← hlens]
+      simp only [List.map_cons, List.sum_cons]
+      omega
+  refine ⟨wr, ?_⟩
+  -- the slice index is accepted
+  have hvs := validSliceIndex_concatIndex d (lens.take k).sum (tk.dims.getD d 0) (t0.dims.set d lens.sum) hl hdr
+    (by rw [hS]; exact hb)
+  rw [← hrank] at hvs
+  obtain ⟨sdata, es, hsl, hsget⟩ := C06.slice_get _ wr _ (C09.rangesOK_of_valid _ _ hvs)
+  -- the slice has the operand's dims
+  have hdims : (t0.dims.set d lens.sum).set d (tk.dims.getD d 0) = tk.dims := by
+    rw [List.set_set]
+    have e1 := eq_rdimsOf d t0.dims tk.dims hlk hdim hjk
+    rw [rdimsOf_set d t0.dims _ hdim] at e1
+    exact e1.symm
+  have hci := completeIndex_concatIndex d (lens.take k).sum (tk.dims.getD d 0) (t0.dims.set d lens.sum) hl
+  rw [← hrank] at hci
+  simp only [] at es hsl hsget
+  rw [hci, sliceDims_catWin d _ _ _ hdr, hdims] at es hsl hsget
+  unfold vSlice
+  rw [if_pos hvs, es]
+  simp only [Out.ofOpt, Out.ok.injEq]
+  refine tensor_ext ⟨tk.dims, sdata⟩ tk ⟨hsl, wk.2⟩ wk rfl (fun js hjs => ?_)
+  have hjs' : Valid ((t0.dims.set d lens.sum).set d (tk.dims.getD d 0)) js := by rw [hdims]; exact hjs
+  obtain ⟨h1, h2⟩ := inBlock_catWin d (lens.take k).sum (tk.dims.getD d 0) hdr hjs'
+  obtain ⟨va, hjd, hdl⟩ := valid_addAt d (lens.take k).sum (tk.dims.getD d 0) hdr hjs' (by rw [hS]; exact hb)
+  rw [hsget js h1, h2]
+  obtain ⟨s, idx', t, r1, r2, r3⟩ := hroute _ va
+  rw [route_addAt lens k d js hdl (by rw [hlensk]; exact hjd)] at r1
+  simp only [Option.some.injEq, Prod.mk.injEq] at r1
+  obtain ⟨rs, ri⟩ := r1
+  rw [← rs, hk] at r2
+  simp only [Option.some.injEq] at r2
+  rw [r3, ← ri, ← r2]
+
+/-- **Slicing a concatenation at an operand's block returns that operand** — for every operand count, rank, `dim` and
+    all sizes: if `Concat(ts, dim)` is accepted with result `r`, then for every `k` the slice of `r` with the index
+    `gradtrack.Concat` builds for operand `k` (`concatIndex`: whole dimensions except `[base_k, base_k + len_k)` along `dim`,
+    `base_k` the sum of the sizes along `dim` of the operands before it — `Qeep.concatEdges`) is accepted and is exactly
+    `ts[k]` (dims and data). -/
+theorem slice_of_concat (ts : List (Tensor α)) (r : Tensor α) (dim : Int) (hwf : ∀ t ∈ ts, t.WF)
+    (h : vConcat ts dim = .ok r) (k : Nat) (tk : Tensor α) (hk : ts[k]? = some tk) :
+    vSlice r (concatIndex tk.dims.length dim.toNat (((ts.take k).map (fun t => t.dims.getD dim.toNat 0)).sum)
+      (tk.dims.getD dim.toNat 0)) = .ok tk := by
+  have hv : validConcat (ts.map (·.dims)) dim = true := by
+    cases hb : validConcat (ts.map (·.dims)) dim with
+    | true => rfl
+    | false => simp [vConcat, hb] at h
+  cases ts with
+  | nil => simp [validConcat] at hv
+  | cons t0 rest =>
+    obtain ⟨_, hdim, hagree⟩ := validConcat_shape t0 rest dim hv
+    unfold vConcat at h
+    rw [if_pos hv] at h
+    cases hc : concatRaw (t0 :: rest) dim.toNat with
+    | none => rw [hc] at h; cases h
+    | some r' =>
+      rw [hc] at h
+      simp only [Out.ofOpt, Out.ok.injEq] at h
+      subst h
+      exact (slice_of_concatRaw t0 rest dim.toNat hdim hwf hagree r' hc k tk hk).2
+
+/-- non-vacuity (kernel-checked on `Int`): `[2,1] ++ [2,2]` along dim 1; the second operand's block is `{0,0},{1:3}` -/
+example : vConcat [(⟨[2, 1], [1, 2]⟩ : Tensor Int), ⟨[2, 2], [3, 4, 5, 6]⟩] 1 = .ok ⟨[2, 3], [1, 3, 4, 2, 5, 6]⟩ ∧
+    concatIndex 2 1 1 2 = [(0, 0), (1, 3)] ∧
+    vSlice (⟨[2, 3], [1, 3, 4, 2, 5, 6]⟩ : Tensor Int) (concatIndex 2 1 1 2) = .ok ⟨[2, 2], [3, 4, 5, 6]⟩ ∧
+    vSlice (⟨[2, 3], [1, 3, 4, 2, 5, 6]⟩ : Tensor Int) (concatIndex 2 1 0 1) = .ok ⟨[2, 1], [1, 2]⟩ := by decide
+
+end
+
+/-! ## 4. Matrix identities
+
+The element formulas (`C04.matmul_get`, `vTranspose_get`) are first brought into big-endian form for operands
+`bd ++ [m, n]` with a common batch shape `bd` (`bd = []`: plain matrices). The identities need only a few laws of the
+scalar domain, collected in `RingLaws`; `ℝ` (what the property is about) and `Int` (kernel-checked witnesses) satisfy
+them. IEEE floats do not (`0 · ∞`, rounding), which is why C04 is stated over `ℝ`. -/
+
+theorem valid_app : ∀ {bd pre ds is : List Nat}, Valid bd pre → Valid ds is → Valid (bd ++ ds) (pre ++ is)
+  | _, _, _, _, .nil, h => h
+  | _, _, _, _, .cons h0 hv, h => .cons h0 (valid_app hv h)
+
+theorem valid2 {a b i j : Nat} (hi : i < a) (hj : j < b) : Valid [a, b] [i, j] := .cons hi (.cons hj .nil)
+
+/-- a valid index of `bd ++ [a, b]` is a batch index followed by a row and a column -/
+theorem valid_split2 : ∀ {bd idx : List Nat} {a b : Nat}, Valid (bd ++ [a, b]) idx →
+    ∃ pre i j, idx = pre ++ [i, j] ∧ Valid bd pre ∧ i < a ∧ j < b
+  | [], _, _, _, h => by
+    cases h with
+    | cons hi h' => cases h' with
+      | cons hj h'' => cases h''; exact ⟨[], _, _, rfl, .nil, hi, hj⟩
+  | d :: bd, _, _, _, h => by
+    cases h with
+    | cons hs h' =>
+      obtain ⟨pre, i, j, e, hv, hi, hj⟩ := valid_split2 h'
+      exact ⟨_ :: pre, i, j, by rw [e]; rfl, .cons hs hv, hi, hj⟩
+
+/-- extensionality for operands of shape `bd ++ [a, b]` -/
+theorem tensor_ext2 (x y : Tensor α) (hx : x.WF) (hy : y.WF) (bd : List Nat) (a b : Nat) (hdx : x.dims = bd ++ [a, b])
+    (hdy : y.dims = bd ++ [a, b])
+    (h : ∀ pre i j, Valid bd pre → i < a → j < b → x.at? (pre ++ [i, j]) = y.at? (pre ++ [i, j])) : x = y := by
+  apply tensor_ext x y hx hy (by rw [hdx, hdy])
+  intro idx hidx
+  rw [hdx] at hidx
+  obtain ⟨pre, i, j, e, hv, hi, hj⟩ := valid_split2 hidx
+  rw [e]; exact h pre i j hv hi hj
+
+theorem transposeDims_app (bd : List Nat) (m n : Nat) : transposeDims (bd ++ [m, n]) = bd ++ [n, m] := by
+  simp [transposeDims]
+
+theorem foldl_congr' {β γ : Type} (f g : β → γ → β) : ∀ (l : List γ) (z : β), (∀ p ∈ l, ∀ s, f s p = g s p) →
+    l.foldl f z = l.foldl g z
+  | [], _, _ => rfl
+  | p :: l, z, h => by
+    simp only [List.foldl_cons]
+    rw [h p (by simp) z]
+    exact foldl_congr' f g l _ (fun q hq => h q (List.mem_cons_of_mem _ hq))
+
+section
+variable [Scalar α]
+
+/-- the element at an index, `0` where there is none -/
+def el (t : Tensor α) (idx : List Nat) : α := (t.at? idx).getD Scalar.zero
+
+theorem at?_el (t : Tensor α) (hwf : t.WF) {idx : List Nat} (hv : Valid t.dims idx) : t.at? idx = some (el t idx) := by
+  obtain ⟨x, hx⟩ := at?_some t hwf hv
+  simp [el, hx]
+
+/-- **Transpose, big-endian form**: `y[b…, i, j] = x[b…, j, i]` for every batch index -/
+theorem vTranspose_get_be (t r : Tensor α) (hwf : t.WF) (bd : List Nat) (m n : Nat) (hd : t.dims = bd ++ [m, n])
+    (h : vTranspose t = .ok r) :
+    r.dims = bd ++ [n, m] ∧ r.WF ∧
+      ∀ pre i j, Valid bd pre → i < n → j < m → r.at? (pre ++ [i, j]) = t.at? (pre ++ [j, i]) := by
+  obtain ⟨_, hdr, wr, hget⟩ := vTranspose_get t r hwf h
+  rw [hd, transposeDims_app] at hdr hget
+  refine ⟨hdr, wr, ?_⟩
+  intro pre i j hv hi hj
+  have hu : Valid (bd ++ [n, m]).reverse (pre ++ [i, j]).reverse := valid_reverse (valid_app hv (valid2 hi hj))
+  have := hget _ hu
+  rw [List.reverse_reverse] at this
+  rw [this]
+  simp [swap2]
+
+/-- accepted exactly like `C04.vTranspose_total`, in the `bd ++ [m, n]` form -/
+theorem vTranspose_ok (t : Tensor α) (hwf : t.WF) (bd : List Nat) (m n : Nat) (hd : t.dims = bd ++ [m, n]) :
+    ∃ r, vTranspose t = .ok r := by
+  obtain ⟨r, e, _⟩ := (C04.vTranspose_total t hwf).1 (by rw [hd]; simp)
+  exact ⟨r, e⟩
+
+theorem targetBroadcastDims_app2 (bd : List Nat) (m n n' k : Nat) :
+    ∃ x y, targetBroadcastDims (bd ++ [m, n]) (bd ++ [n', k]) = bd ++ [x, y] := by
+  refine ⟨if m > n' then m else n', if n > k then n else k, ?_⟩
+  simp [targetBroadcastDims, targetBroadcastLE, targetBroadcastLE_self]
+
+theorem matMulShape_app2 (bd : List Nat) (x y m n : Nat) : matMulShape (bd ++ [x, y]) (bd ++ [m, n]) = bd ++ [m, n] := by
+  simp [matMulShape, List.dropLast_append_cons, List.dropLast_cons_of_ne_nil]
+
+theorem validMatMul_app2 (bd : List Nat) (m n k : Nat) : validMatMul (bd ++ [m, n]) (bd ++ [n, k]) = true := by
+  simp [validMatMul, List.dropLast_append_cons, List.dropLast_cons_of_ne_nil]
+
+/-- the kernel run (`C04.matmul_get`) for well-formed operands `bd ++ [m, n]`, `bd ++ [n, k]` -/
+theorem matMulRaw_get (a b : Tensor α) (ha : a.WF) (hb : b.WF) (bd : List Nat) (m n k : Nat)
+    (hda : a.dims = bd ++ [m, n]) (hdb : b.dims = bd ++ [n, k]) :
+    ∃ c, a.matMulRaw b = some c ∧ c.dims = bd ++ [m, k] ∧ c.WF ∧
+      ∀ pre i j, Valid bd pre → i < m → j < k →
+        c.at? (pre ++ [i, j]) = some ((List.range n).foldl
+          (fun s p => Scalar.add s (Scalar.mul (el a (pre ++ [i, p])) (el b (pre ++ [p, j])))) Scalar.zero) := by
+  obtain ⟨da, xa⟩ := a
+  obtain ⟨db, xb⟩ := b
+  simp only at hda hdb
+  rw [hda] at ha
+  rw [hdb] at hb
+  rw [hda, hdb]
+  clear hda hdb
+  have hbd : ∀ d ∈ bd, 0 < d := fun d hd => ha.2 d (by simp [hd])
+  have hm : 0 < m := ha.2 m (by simp)
+  have hn : 0 < n := ha.2 n (by simp)
+  have hk : 0 < k := hb.2 k (by simp)
+  obtain ⟨data, e, hlen, hget⟩ := C04.matmul_get bd m n k xa xb hbd hm hn hk ha.1 hb.1
+    (fun pre i p => el (⟨bd ++ [m, n], xa⟩ : Tensor α) (pre ++ [i, p]))
+    (fun pre p j => el (⟨bd ++ [n, k], xb⟩ : Tensor α) (pre ++ [p, j]))
+    (fun pre i p hv hi hp => at?_el _ ha (valid_app hv (valid2 hi hp)))
+    (fun pre p j hv hp hj => at?_el _ hb (valid_app hv (valid2 hp hj)))
+  refine ⟨⟨bd ++ [m, k], data⟩, e, rfl, ⟨hlen, ?_⟩, hget⟩
+  intro d hd
+  simp only [List.mem_append, List.mem_cons, List.not_mem_nil, or_false] at hd
+  rcases hd with hd | hd | hd
+  · exact hbd d hd
+  · rw [hd]; exact hm
+  · rw [hd]; exact hk
+
+/-- **MatMul, public form for operands with a common batch shape**: accepted, dims `bd ++ [m, k]`, well formed, and
+    `y[b…, i, j] = Σ_p A[b…, i, p] · B[b…, p, j]` (left fold from 0). -/
+theorem vMatMul_get (a b : Tensor α) (ha : a.WF) (hb : b.WF) (bd : List Nat) (m n k : Nat)
+    (hda : a.dims = bd ++ [m, n]) (hdb : b.dims = bd ++ [n, k]) :
+    ∃ c, vMatMul a b = .ok c ∧ c.dims = bd ++ [m, k] ∧ c.WF ∧
+      ∀ pre i j, Valid bd pre → i < m → j < k →
+        c.at? (pre ++ [i, j]) = some ((List.range n).foldl
+          (fun s p => Scalar.add s (Scalar.mul (el a (pre ++ [i, p])) (el b (pre ++ [p, j])))) Scalar.zero) := by
+  obtain ⟨c, ec, hdc, wc, hc⟩ := matMulRaw_get a b ha hb bd m n k hda hdb
+  refine ⟨c, ?_, hdc, wc, hc⟩
+  obtain ⟨x, y, hsh⟩ := targetBroadcastDims_app2 bd m n n k
+  have ea : vBroadcastN a (bd ++ [m, n]) = .ok a := by rw [← hda]; exact vBroadcastN_self a ha
+  have eb : vBroadcastN b (bd ++ [n, k]) = .ok b := by rw [← hdb]; exact vBroadcastN_self b hb
+  unfold vMatMul
+  rw [hda, hdb, if_pos (validMatMul_app2 bd m n k)]
+  simp only [vBroadcastPairMM, bind, Out.bind, hda, hdb, hsh, matMulShape_app2]
+  rw [ea]
+  simp only []
+  rw [eb]
+  simp only [pure, ec, Out.ofOpt]
+
+/-! ### a plain matrix against a batch (`broadcastForMatMul` expands the matrix over the batch dims) -/
+
+theorem targetBroadcastLE_nil_right (l : List Nat) : targetBroadcastLE l [] = l := by cases l <;> rfl
+
+theorem targetBroadcastDims_matR (bd : List Nat) (m n n' k : Nat) :
+    ∃ x y, targetBroadcastDims (bd ++ [m, n]) [n', k] = bd ++ [x, y] := by
+  refine ⟨if m > n' then m else n', if n > k then n else k, ?_⟩
+  simp [targetBroadcastDims, targetBroadcastLE, targetBroadcastLE_nil_right]
+
+theorem targetBroadcastDims_matL (bd : List Nat) (m n n' k : Nat) :
+    ∃ x y, targetBroadcastDims [m, n] (bd ++ [n', k]) = bd ++ [x, y] := by
+  refine ⟨if m > n' then m else n', if n > k then n else k, ?_⟩
+  simp [targetBroadcastDims, targetBroadcastLE]
+
+theorem matMulShape_mat (bd : List Nat) (x y n k : Nat) : matMulShape (bd ++ [x, y]) [n, k] = bd ++ [n, k] := by
+  simp [matMulShape, List.dropLast_append_cons, List.dropLast_cons_of_ne_nil]
+
+theorem validMatMul_matR (bd : List Nat) (m n k : Nat) : validMatMul (bd ++ [m, n]) [n, k] = true := by
+  simp [validMatMul]
+
+theorem validMatMul_matL (bd : List Nat) (m n k : Nat) : validMatMul [m, n] (bd ++ [n, k]) = true := by
+  simp [validMatMul, List.dropLast_append_cons, List.dropLast_cons_of_ne_nil]
+
+/-- expanding a matrix over batch dims repeats it: `b'[pre…, p, j] = b[p, j]` (`C03x.vBroadcastN_get` at a matrix) -/
+theorem bcast_mat_get (b : Tensor α) (hb : b.WF) (bd : List Nat) (hbd : ∀ d ∈ bd, 0 < d) (n k : Nat)
+    (hdb : b.dims = [n, k]) :
+    ∃ b', vBroadcastN b (bd ++ [n, k]) = .ok b' ∧ b'.dims = bd ++ [n, k] ∧ b'.WF ∧
+      ∀ pre p j, Valid bd pre → p < n → j < k → b'.at? (pre ++ [p, j]) = b.at? [p, j] := by
+  have hpos : ∀ d ∈ bd ++ [n, k], 0 < d := by
+    intro d hd
+    simp only [List.mem_append, List.mem_cons, List.not_mem_nil, or_false] at hd
+    rcases hd with hd | hd | hd
+    · exact hbd d hd
+    · rw [hd]; exact hb.2 n (by rw [hdb]; simp)
+    · rw [hd]; exact hb.2 k (by rw [hdb]; simp)
+  have hv : validBroadcast b.dims (bd ++ [n, k]) = true := by
+    rw [hdb]; simp [validBroadcast, validBroadcastLE]
+  obtain ⟨b', e, _, hd', wb'⟩ := (C03x.vBroadcastN_total b hb (bd ++ [n, k]) hpos).1 hv
+  refine ⟨b', e, hd', wb', ?_⟩
+  intro pre p j hvp hp hj
+  have hidx : Valid b'.dims (pre ++ [p, j]) := by rw [hd']; exact valid_app hvp (valid2 hp hj)
+  have hu : Valid (bd ++ [n, k]).reverse (pre ++ [p, j]).reverse := by rw [← hd']; exact valid_reverse hidx
+  rw [at?_eq_data b' hidx, hd', (C03x.vBroadcastN_get hb e _ hu).1, hdb]
+  simp [projLE]
+
+/-- **MatMul of a batch with one matrix on the right** (`x · W`): `y[b…, i, j] = Σ_p A[b…, i, p] · B[p, j]` -/
+theorem vMatMul_get_matR (a b : Tensor α) (ha : a.WF) (hb : b.WF) (bd : List Nat) (m n k : Nat)
+    (hda : a.dims = bd ++ [m, n]) (hdb : b.dims = [n, k]) :
+    ∃ c, vMatMul a b = .ok c ∧ c.dims = bd ++ [m, k] ∧ c.WF ∧
+      ∀ pre i j, Valid bd pre → i < m → j < k →
+        c.at? (pre ++ [i, j]) = some ((List.range n).foldl
+          (fun s p => Scalar.add s (Scalar.mul (el a (pre ++ [i, p])) (el b [p, j]))) Scalar.zero) := by
+  have hbd : ∀ d ∈ bd, 0 < d := fun d hd => ha.2 d (by rw [hda]; simp [hd])
+  obtain ⟨b', eb, hdb', wb', hb'⟩ := bcast_mat_get b hb bd hbd n k hdb
+  obtain ⟨c, ec, hdc, wc, hc⟩ := matMulRaw_get a b' ha wb' bd m n k hda hdb'
+  refine ⟨c, ?_, hdc, wc, ?_⟩
+  · obtain ⟨x, y, hsh⟩ := targetBroadcastDims_matR bd m n n k
+    have ea : vBroadcastN a (bd ++ [m, n]) = .ok a := by rw [← hda]; exact vBroadcastN_self a ha
+    unfold vMatMul
+    rw [hda, hdb, if_pos (validMatMul_matR bd m n k)]
+    simp only [vBroadcastPairMM, bind, Out.bind, hda, hdb, hsh, matMulShape_app2, matMulShape_mat]
+    rw [ea]
+    simp only []
+    rw [eb]
+    simp only [pure, ec, Out.ofOpt]
+  · intro pre i j hv hi hj
+    rw [hc pre i j hv hi hj]
+    congr 1
+    apply foldl_congr'
+    intro p hp s
+    have hp' : p < n := List.mem_range.mp hp
+    have e1 : el b' (pre ++ [p, j]) = el b [p, j] := by unfold el; rw [hb' pre p j hv hp' hj]
+    rw [e1]
+
+/-- **MatMul of one matrix on the left with a batch**: `y[b…, i, j] = Σ_p A[i, p] · B[b…, p, j]` -/
+theorem vMatMul_get_matL (a b : Tensor α) (ha : a.WF) (hb : b.WF) (bd : List Nat) (m n k : Nat)
+    (hda : a.dims = [m, n]) (hdb : b.dims = bd ++ [n, k]) :
+    ∃ c, vMatMul a b = .ok c ∧ c.dims = bd ++ [m, k] ∧ c.WF ∧
+      ∀ pre i j, Valid bd pre → i < m → j < k →
+        c.at? (pre ++ [i, j]) = some ((List.range n).foldl
+          (fun s p => Scalar.add s (Scalar.mul (el a [i, p]) (el b (pre ++ [p, j])))) Scalar.zero) := by
+  have hbd : ∀ d ∈ bd, 0 < d := fun d hd => hb.2 d (by rw [hdb]; simp [hd])
+  obtain ⟨a', ea, hda', wa', ha'⟩ := bcast_mat_get a ha bd hbd m n hda
+  obtain ⟨c, ec, hdc, wc, hc⟩ := matMulRaw_get a' b wa' hb bd m n k hda' hdb
+  refine ⟨c, ?_, hdc, wc, ?_⟩
+  · obtain ⟨x, y, hsh⟩ := targetBroadcastDims_matL bd m n n k
+    have eb : vBroadcastN b (bd ++ [n, k]) = .ok b := by rw [← hdb]; exact vBroadcastN_self b hb
+    unfold vMatMul
+    rw [hda, hdb, if_pos (validMatMul_matL bd m n k)]
+    simp only [vBroadcastPairMM, bind, Out.bind, hda, hdb, hsh, matMulShape_app2, matMulShape_mat]
+    rw [ea]
+    simp only []
+    rw [eb]
+    simp only [pure, ec, Out.ofOpt]
+  · intro pre i j hv hi hj
+    rw [hc pre i j hv hi hj]
+    congr 1
+    apply foldl_congr'
+    intro p hp s
+    have hp' : p < n := List.mem_range.mp hp
+    have e1 : el a' (pre ++ [i, p]) = el a [i, p] := by unfold el; rw [ha' pre i p hv hi hp']
+    rw [e1]
+
+/-- the laws of the scalar domain the matrix identities rest on -/
+structure RingLaws (α : Type) [Scalar α] : Prop where
+  add_zero : ∀ x : α, Scalar.add x Scalar.zero = x
+  zero_add : ∀ x : α, Scalar.add Scalar.zero x = x
+  mul_one : ∀ x : α, Scalar.mul x Scalar.one = x
+  one_mul : ∀ x : α, Scalar.mul Scalar.one x = x
+  mul_zero : ∀ x : α, Scalar.mul x Scalar.zero = Scalar.zero
+  zero_mul : ∀ x : α, Scalar.mul Scalar.zero x = Scalar.zero
+  mul_comm : ∀ x y : α, Scalar.mul x y = Scalar.mul y x
+
+theorem ringLaws_int : RingLaws Int where
+  add_zero x := by show x + ((0 : Nat) : Int) = x; omega
+  zero_add x := by show ((0 : Nat) : Int) + x = x; omega
+  mul_one x := by show x * ((1 : Nat) : Int) = x; omega
+  one_mul x := by show ((1 : Nat) : Int) * x = x; omega
+  mul_zero x := by show x * ((0 : Nat) : Int) = ((0 : Nat) : Int); omega
+  zero_mul x := by show ((0 : Nat) : Int) * x = ((0 : Nat) : Int); omega
+  mul_comm x y := Int.mul_comm x y
+
+theorem ringLaws_real : RingLaws ℝ where
+  add_zero x := by simp
+  zero_add x := by simp
+  mul_one x := by simp
+  one_mul x := by simp
+  mul_zero x := by simp
+  zero_mul x := by simp
+  mul_comm x y := by simp [mul_comm]
+
+/-- `Σ_p f(p)·δ(p, j) = f(j)` as the left fold the Go loop computes -/
+theorem fold_delta_right (L : RingLaws α) (f : Nat → α) (j : Nat) : ∀ n,
+    (List.range n).foldl (fun s p => Scalar.add s (Scalar.mul (f p) (if p = j then Scalar.one else Scalar.zero))) Scalar.zero
+      = if j < n then f j else Scalar.zero
+  | 0 => by simp
+  | n + 1 => by
+    rw [List.range_succ, List.foldl_append, fold_delta_right L f j n]
+    simp only [List.foldl_cons, List.foldl_nil]
+    by_cases h1 : j < n
+    · have hne : ¬ n = j := by omega
+      rw [if_pos h1, if_neg hne, if_pos (by omega), L.mul_zero, L.add_zero]
+    · rw [if_neg h1]
+      by_cases h2 : n = j
+      · rw [if_pos h2, if_pos (by omega), L.mul_one, L.zero_add, h2]
+      · rw [if_neg h2, if_neg (by omega), L.mul_zero, L.add_zero]
+
+/-- `Σ_p δ(i, p)·f(p) = f(i)` -/
+theorem fold_delta_left (L : RingLaws α) (f : Nat → α) (i : Nat) : ∀ n,
+    (List.range n).foldl (fun s p => Scalar.add s (Scalar.mul (if i = p then Scalar.one else Scalar.zero) (f p))) Scalar.zero
+      = if i < n then f i else Scalar.zero
+  | 0 => by simp
+  | n + 1 => by
+    rw [List.range_succ, List.foldl_append, fold_delta_left L f i n]
+    simp only [List.foldl_cons, List.foldl_nil]
+    by_cases h1 : i < n
+    · have hne : ¬ i = n := by omega
+      rw [if_pos h1, if_neg hne, if_pos (by omega), L.zero_mul, L.add_zero]
+    · rw [if_neg h1]
+      by_cases h2 : i = n
+      · rw [if_pos h2, if_pos (by omega), L.one_mul, L.zero_add, h2]
+      · rw [if_neg h2, if_neg (by omega), L.zero_mul, L.add_zero]
+
+/-! ### Eye -/
+
+theorem eye_wf (n : Nat) (hn : 0 < n) : (eyeMatrix n : Tensor α).WF := by
+  refine ⟨by simp [eyeMatrix, prod], ?_⟩
+  intro d hd
+  simp only [eyeMatrix, List.mem_cons, List.not_mem_nil, or_false, or_self] at hd
+  rw [hd]; exact hn
+
+theorem vEye_ok (n : Nat) (hn : 0 < n) : (vEye (n : Int) : Out (Tensor α)) = .ok (eyeMatrix n) := by
+  have : validInputDims [(n : Int), (n : Int)] = true := by
+    simp only [validInputDims, List.all_cons, List.all_nil, Bool.and_true, Bool.and_self, decide_eq_true_eq]; omega
+  simp only [vEye, this, if_true, Int.toNat_natCast]
+
+/-- `Eye(n)[i, j] = δ_ij` (`C06.eye_get` at a matrix index) -/
+theorem eye_el (n i j : Nat) (hi : i < n) (hj : j < n) :
+    el (eyeMatrix n : Tensor α) [i, j] = if i = j then Scalar.one else Scalar.zero := by
+  have e : (eyeMatrix n : Tensor α) = ⟨[n, n], (eyeMatrix n : Tensor α).data⟩ := rfl
+  unfold el
+  rw [e, at?_rank2 n n _ i j hi hj, C06.eye_get n i j hi hj]
+  rfl
+
+/-- **`A · I = A`** for a scalar domain with the ring laws: for every well-formed `m × n` matrix — or batch of
+    matrices `bd ++ [m, n]` of any batch rank, `Eye(n)` being expanded over the batch — the product with `Eye(n)` is
+    accepted and is `A` itself (dims and data). -/
+theorem matmul_eye_right_of (L : RingLaws α) (A : Tensor α) (hA : A.WF) (bd : List Nat) (m n : Nat)
+    (hd : A.dims = bd ++ [m, n]) : vMatMul A (eyeMatrix n) = .ok A := by
+  have hn : 0 < n := hA.2 n (by rw [hd]; simp)
+  obtain ⟨c, e, hdc, wc, hget⟩ := vMatMul_get_matR A (eyeMatrix n) hA (eye_wf n hn) bd m n n hd rfl
+  rw [e]
+  congr 1
+  apply tensor_ext2 c A wc hA bd m n hdc hd
+  intro pre i j hv hi hj
+  rw [hget pre i j hv hi hj, at?_el A hA (by rw [hd]; exact valid_app hv (valid2 hi hj))]
+  congr 1
+  rw [foldl_congr' _ (fun s p => Scalar.add s (Scalar.mul (el A (pre ++ [i, p])) (if p = j then Scalar.one else Scalar.zero)))
+    (List.range n) _ (fun p hp s => by
+      have hp' : p < n := List.mem_range.mp hp
+      show Scalar.add s (Scalar.mul (el A (pre ++ [i, p])) (el (eyeMatrix n : Tensor α) [p, j])) = _
+      rw [eye_el n p j hp' hj])]
+  rw [fold_delta_right L (fun p => el A (pre ++ [i, p])) j n, if_pos hj]
+
+/-- **`I · A = A`** for a scalar domain with the ring laws (matrix or batch of matrices `bd ++ [m, n]`) -/
+theorem matmul_eye_left_of (L : RingLaws α) (A : Tensor α) (hA : A.WF) (bd : List Nat) (m n : Nat)
+    (hd : A.dims = bd ++ [m, n]) : vMatMul (eyeMatrix m) A = .ok A := by
+  have hm : 0 < m := hA.2 m (by rw [hd]; simp)
+  obtain ⟨c, e, hdc, wc, hget⟩ := vMatMul_get_matL (eyeMatrix m) A (eye_wf m hm) hA bd m m n rfl hd
+  rw [e]
+  congr 1
+  apply tensor_ext2 c A wc hA bd m n hdc hd
+  intro pre i j hv hi hj
+  rw [hget pre i j hv hi hj, at?_el A hA (by rw [hd]; exact valid_app hv (valid2 hi hj))]
+  congr 1
+  rw [foldl_congr' _ (fun s p => Scalar.add s (Scalar.mul (if i = p then Scalar.one else Scalar.zero) (el A (pre ++ [p, j]))))
+    (List.range m) _ (fun p hp s => by
+      have hp' : p < m := List.mem_range.mp hp
+      show Scalar.add s (Scalar.mul (el (eyeMatrix m : Tensor α) [i, p]) (el A (pre ++ [p, j]))) = _
+      rw [eye_el m i p hi hp'])]
+  rw [fold_delta_left L (fun p => el A (pre ++ [p, j])) i m, if_pos hi]
+
+/-! ### `(A·B)ᵀ = Bᵀ·Aᵀ` -/
+
+/-- **`(A · B)ᵀ = Bᵀ · Aᵀ`** for a commutative scalar multiplication — operands `bd ++ [m, n]` and `bd ++ [n, k]` with
+    a common batch shape `bd` of any rank (`bd = []`: matrices): all five operations are accepted and the transpose of the
+    product is the product of the transposes in reverse order, as tensors (dims and data). -/
+theorem matmul_transpose_of (hcomm : ∀ x y : α, Scalar.mul x y = Scalar.mul y x) (A B : Tensor α) (hA : A.WF) (hB : B.WF)
+    (bd : List Nat) (m n k : Nat) (hdA : A.dims = bd ++ [m, n]) (hdB : B.dims = bd ++ [n, k]) :
+    ∃ C Ct At Bt, vMatMul A B = .ok C ∧ vTranspose C = .ok Ct ∧ vTranspose A = .ok At ∧ vTranspose B = .ok Bt ∧
+      vMatMul Bt At = .ok Ct := by
+  obtain ⟨C, eC, hdC, wC, hC⟩ := vMatMul_get A B hA hB bd m n k hdA hdB
+  obtain ⟨Ct, eCt⟩ := vTranspose_ok C wC bd m k hdC
+  obtain ⟨At, eAt⟩ := vTranspose_ok A hA bd m n hdA
+  obtain ⟨Bt, eBt⟩ := vTranspose_ok B hB bd n k hdB
+  obtain ⟨hdCt, wCt, hCt⟩ := vTranspose_get_be C Ct wC bd m k hdC eCt
+  obtain ⟨hdAt, wAt, hAt⟩ := vTranspose_get_be A At hA bd m n hdA eAt
+  obtain ⟨hdBt, wBt, hBt⟩ := vTranspose_get_be B Bt hB bd n k hdB eBt
+  obtain ⟨D, eD, hdD, wD, hD⟩ := vMatMul_get Bt At wBt wAt bd k n m hdBt hdAt
+  refine ⟨C, Ct, At, Bt, eC, eCt, eAt, eBt, ?_⟩
+  rw [eD]
+  congr 1
+  apply tensor_ext2 D Ct wD wCt bd k m hdD hdCt
+  intro pre j i hv hj hi
+  rw [hD pre j i hv hj hi, hCt pre j i hv hj hi, hC pre i j hv hi hj]
+  congr 1
+  apply foldl_congr'
+  intro p hp s
+  have hp' : p < n := List.mem_range.mp hp
+  have e1 : el Bt (pre ++ [j, p]) = el B (pre ++ [p, j]) := by unfold el; rw [hBt pre j p hv hj hp']
+  have e2 : el At (pre ++ [p, i]) = el A (pre ++ [i, p]) := by unfold el; rw [hAt pre p i hv hp' hi]
+  rw [e1, e2, hcomm]
+
+end
+
+/-! ### over ℝ (the statements of property C04) and kernel-checked witnesses over `Int` -/
+
+/-- **`A · I = A`** over ℝ, through the public constructors: `Eye(n)` is accepted and `MatMul(A, Eye(n)) = A`, for a
+    matrix (`bd = []`) or a batch of matrices of any batch rank -/
+theorem matmul_eye_right (A : Tensor ℝ) (hA : A.WF) (bd : List Nat) (m n : Nat) (hd : A.dims = bd ++ [m, n]) :
+    (vEye (n : Int) : Out (Tensor ℝ)) = .ok (eyeMatrix n) ∧ vMatMul A (eyeMatrix n) = .ok A :=
+  ⟨vEye_ok n (hA.2 n (by rw [hd]; simp)), matmul_eye_right_of ringLaws_real A hA bd m n hd⟩
+
+/-- **`I · A = A`** over ℝ -/
+theorem matmul_eye_left (A : Tensor ℝ) (hA : A.WF) (bd : List Nat) (m n : Nat) (hd : A.dims = bd ++ [m, n]) :
+    (vEye (m : Int) : Out (Tensor ℝ)) = .ok (eyeMatrix m) ∧ vMatMul (eyeMatrix m) A = .ok A :=
+  ⟨vEye_ok m (hA.2 m (by rw [hd]; simp)), matmul_eye_left_of ringLaws_real A hA bd m n hd⟩
+
+/-- the matrix case in the form the property states it: `A · I = A = I · A` for every well-formed `m × n` real matrix -/
+theorem matmul_eye (A : Tensor ℝ) (hA : A.WF) (m n : Nat) (hd : A.dims = [m, n]) :
+    vMatMul A (eyeMatrix n) = .ok A ∧ vMatMul (eyeMatrix m) A = .ok A :=
+  ⟨(matmul_eye_right A hA [] m n hd).2, (matmul_eye_left A hA [] m n hd).2⟩
+
+/-- **`(A · B)ᵀ = Bᵀ · Aᵀ`** over ℝ, for every common batch shape and all sizes -/
+theorem matmul_transpose (A B : Tensor ℝ) (hA : A.WF) (hB : B.WF) (bd : List Nat) (m n k : Nat)
+    (hdA : A.dims = bd ++ [m, n]) (hdB : B.dims = bd ++ [n, k]) :
+    ∃ C Ct At Bt, vMatMul A B = .ok C ∧ vTranspose C = .ok Ct ∧ vTranspose A = .ok At ∧ vTranspose B = .ok Bt ∧
+      vMatMul Bt At = .ok Ct :=
+  matmul_transpose_of ringLaws_real.mul_comm A B hA hB bd m n k hdA hdB
+
+/-- non-vacuity (kernel-checked on `Int`): a 2×3 matrix times `Eye(3)`, `Eye(2)` times it -/
+example : vEye (3 : Int) = .ok (⟨[3, 3], [1, 0, 0, 0, 1, 0, 0, 0, 1]⟩ : Tensor Int) ∧
+    vMatMul (⟨[2, 3], [1, 2, 3, 4, 5, 6]⟩ : Tensor Int) (eyeMatrix 3) = .ok ⟨[2, 3], [1, 2, 3, 4, 5, 6]⟩ ∧
+    vMatMul (eyeMatrix 2) (⟨[2, 3], [1, 2, 3, 4, 5, 6]⟩ : Tensor Int) = .ok ⟨[2, 3], [1, 2, 3, 4, 5, 6]⟩ := by decide
+
+/-- non-vacuity (kernel-checked on `Int`): `(A·B)ᵀ = Bᵀ·Aᵀ` for a 2×3 times a 3×2 matrix -/
+example :
+    vMatMul (⟨[2, 3], [1, 2, 3, 4, 5, 6]⟩ : Tensor Int) ⟨[3, 2], [7, 8, 9, 10, 11, 12]⟩ = .ok ⟨[2, 2], [58, 64, 139, 154]⟩ ∧
+    vTranspose (⟨[2, 2], [58, 64, 139, 154]⟩ : Tensor Int) = .ok ⟨[2, 2], [58, 139, 64, 154]⟩ ∧
+    vTranspose (⟨[2, 3], [1, 2, 3, 4, 5, 6]⟩ : Tensor Int) = .ok ⟨[3, 2], [1, 4, 2, 5, 3, 6]⟩ ∧
+    vTranspose (⟨[3, 2], [7, 8, 9, 10, 11, 12]⟩ : Tensor Int) = .ok ⟨[2, 3], [7, 9, 11, 8, 10, 12]⟩ ∧
+    vMatMul (⟨[2, 3], [7, 9, 11, 8, 10, 12]⟩ : Tensor Int) ⟨[3, 2], [1, 4, 2, 5, 3, 6]⟩ = .ok ⟨[2, 2], [58, 139, 64, 154]⟩ := by
+  decide
 
 end C04x
 end Qeep
